@@ -178,7 +178,7 @@ func runC11(c *Ctx) {
 	c.R.Floor(r7, 2)
 
 	const r5 = "C11.R5 a session is attached to the realm named in its HELLO"
-	a2 := "router.(*router).AttachClient$2"
+	a2 := "router.(*router).AttachClient$1"
 	c.AllMatch(r5, a2, "realm chosen by HELLO.Realm or created for it", `^store:\^realm=`, `^store:\^realm=(\^r\.realms\[\^hello\.Realm\],ok#0|call:router\.\(\*router\)\.addRealm\(\^r, &local:config\)#0)$`, 2)
 	c.Has(r5, a2, "template realm created under the requested URI", `^store:&local:config\.&URI=\^hello\.Realm$`, 1)
 	c.R.Floor(r5, 3)
